@@ -689,6 +689,35 @@ def check_table_growth_bounded(ctx, F):
     users = [c for c in F.bodies if c.promoted is None and not is_test(c) and c.dk in ('Fn', 'AssocFn') and any((callee(t) or {}).get('def') == fp.defpath for _, t in c.calls())]
     is_pow = lambda t: isinstance(t, tuple) and t and ((t[0] == 'bin' and t[1] == 'Shl' and t[3] == ('c', 'PRECISION') and (t[2] == sym.mk_int(1) or (t[2][0] == 'k' and t[2][1] == 'one'))) or (t[0] == 'call' and str(t[1]).endswith('wrapping_pow2')))
     for u in users:
+        # values captured by the callbacks (a table size kept in a local of the constructor)
+        caps = {}
+        try:
+            uev, upaths = rules.evaluate(u)
+        except sym.TooManyPaths:
+            uev, upaths = None, None
+        for r0 in upaths or []:
+            terms0 = ([r0.ret] if r0.ret is not None else []) + [a for e in r0.events if e['kind'] == 'call' for a in e.get('args_val', e['args'])]
+            for t0 in terms0:
+                for x in sym.subterms(t0):
+                    if isinstance(x, tuple) and x and x[0] == 'agg' and isinstance(x[1], tuple) and x[1][0] == 'closure' and x[1][1] not in caps:
+                        vals = []
+                        for c in x[2]:
+                            if isinstance(c, tuple) and c and c[0] == 'ref' and uev is not None:
+                                vals.append(effects.strip_uid(uev.final_read(r0, tuple(c[1]))))
+                            else:
+                                vals.append(effects.strip_uid(c) if isinstance(c, tuple) else c)
+                        caps[x[1][1]] = vals
+
+        def resolve(cb, t):
+            # `*(captured reference)` / captured value -> what the constructor stored there
+            vals = caps.get(cb.defpath)
+            if not vals or not (isinstance(t, tuple) and t and t[0] == 'in' and t[1][:2] == (1, 'deref') and len(t[1]) >= 3 and isinstance(t[1][2], tuple) and t[1][2][0] == 'f'):
+                return t
+            k = int(t[1][2][1])
+            rest = t[1][3:]
+            if k < len(vals) and (not rest or rest == ('deref',)):
+                return vals[k]
+            return t
         for cb in F.closures_of(u):
             try:
                 ev, paths = rules.evaluate(cb)
@@ -709,6 +738,7 @@ def check_table_growth_bounded(ctx, F):
                             continue
                         op = t[1] if v else {'Lt': 'Ge', 'Le': 'Gt', 'Gt': 'Le', 'Ge': 'Lt'}[t[1]]
                         a, b_ = effects.strip_uid(t[2]), effects.strip_uid(t[3])
+                        a, b_ = (a if not is_pow(resolve(cb, a)) else resolve(cb, a)), (b_ if not is_pow(resolve(cb, b_)) else resolve(cb, b_))
                         if (op in ('Le', 'Lt') and is_pow(b_) and sym.contains(target, lambda x: x == a)) or (op in ('Ge', 'Gt') and is_pow(a) and sym.contains(target, lambda x: x == b_)):
                             ok = True
                     for x in sym.subterms(target):
